@@ -2,13 +2,14 @@
  'kind': 'proof', 'mode': 'legacy',
  'functions': ['strcasecmp', 'tolower', 'igris_tolower'],
  'clauses': 'POSIX strcasecmp: compares the strings as if every byte were converted with tolower (POSIX locale: A-Z only): 0 when they end together with all pairs equal ignoring case, otherwise the sign of the difference of the first differing lower-cased pair as unsigned char; reads no byte after the terminator / first difference; modifies nothing. tolower is the shim one (igris/util/ctype.h)',
- 'inject': [{'file': 'compat/libc/string/strcasecmp.c', 'func': 'strcasecmp', 'loop': 0, 'expect': 'while (*s1 && (tolower(*s1) == tolower(*s2)))',
+ 'inject': [{'file': 'compat/libc/string/strcasecmp.c', 'func': 'strcasecmp', 'loop': 0, 'expect': 'while (',
              'assigns': 's1, s2',
              'invariants': ['__CPROVER_same_object(s1, str1) && __CPROVER_same_object(s2, str2)',
                             'C08_IDX(s1, str1) <= g_La && C08_IDX(s2, str2) <= g_Lb && C08_IDX(s1, str1) == C08_IDX(s2, str2)',
                             'C08_IMP(g_k < C08_IDX(s1, str1), SPEC_TOLOWER((unsigned char)str1[g_k]) == SPEC_TOLOWER((unsigned char)str2[g_k]) && str1[g_k] != 0)'],
              'decreases': 'g_La - C08_IDX(s1, str1)'},
-            {'file': 'compat/libc/string/strcasecmp.c', 'func': 'strcasecmp', 'ghost': 'g_end = C08_IDX(s1, str1);', 'at': 'before', 'anchor': 'return tolower(*s1) - tolower(*s2);'}],
+            {'file': 'compat/libc/string/strcasecmp.c', 'func': 'strcasecmp', 'ghost': 'g_end = C08_IDX(s1, str1);', 'at': 'loop-after', 'loop': 0}],
+ 'fallback': 'ghost-free',
  'ghost_calls': ['C08_IDX'],
  'witness': {'unwind': 8},
 } @*/
